@@ -7,11 +7,23 @@
     makes a symmetric key/bit swap in writer and reader a broken obligation;
   * time offsets written for a block are exact and recovered exactly (C17 theorems, imported);
   * the encoder emits for every write call the RFC 8949 preferred encoding (C06, imported).
-  The composed statement over the exporter model is in Props/C12 (conservation) and the
-  schema round trip in Props/C09; the end-to-end tie is the three-way differential check
+  * `file_roundtrip`: over the schema model of the struct writers/readers (`Model.Schema` with
+    the preamble and block schemas of `Model.Structs`, ≈ 60 C++ functions), a file laid out as the
+    exporter lays it out – `83 65 "C-DNS"`, preamble, `9f`, blocks, `ff` – is read back by the
+    model of `CdnsReader` (`Model.File.readFile`) as exactly the preamble and the blocks written,
+    with nothing left over: every member of every struct, every table entry, every record, in
+    order, integers over their whole width, byte strings bit for bit; `block_roundtrip` is the
+    single-block instance.  (Raw values: table indexes and time offsets as stored; their
+    resolution to records is the independent `Spec.Cdns` interpretation.)
+  The composed statement over the exporter model is in Props/C12 (conservation); the tie of the
+  schema model to the code is the `blk` correspondence (model reader = library reader, model
+  writer = library bytes, on every output of every session) and the three-way differential
   (library reader, independent reader `Spec.Cdns.interpret`, reference expectation).
 -/
 import CdnsVerif.Proofs.Keys
+import CdnsVerif.Proofs.DenoteWrite
+import CdnsVerif.Proofs.ConformsB
+import CdnsVerif.Model.File
 import CdnsVerif.Props.C06
 import CdnsVerif.Props.C17
 
@@ -23,5 +35,91 @@ theorem private_keys_match : privateAgree = true := generated_private_keys
 theorem hint_bits_are_distinct :
     (maskOk "QueryResponseHintsMask" && maskOk "QueryResponseSignatureHintsMask" && maskOk "RrHintsMask"
       && maskOk "OtherDataHintsMask") = true := hint_bits_distinct
+
+/-! ### struct level: what was written is what is read -/
+
+open CdnsVerif.Spec.Cbor CdnsVerif.Model CdnsVerif.Model.Decoder CdnsVerif.Model.Schema CdnsVerif.Model.Structs CdnsVerif.Model.File
+
+/-- one block: every conforming block value survives write → read unchanged -/
+theorem block_roundtrip (v : Val) (hc : Conforms block v) (rest : Bytes) :
+    (readVal (need v) block).run (writeBytes block v ++ rest) = .ok (v, rest) :=
+  (rt_all (need v)).1 block v rest hc (Nat.le_refl _)
+
+theorem flatten_writeBytes (k : Kind) (vs : List Val) : (vs.map (writeBytes k)).flatten = Item.encList (toItems k vs) := by
+  induction vs with
+  | nil => rfl
+  | cons v vs ih => simp only [List.map_cons, List.flatten_cons, toItems, Item.encList, ih, writeBytes]
+
+theorem wf_toItems (k : Kind) (vs : List Val) (hc : ConformsList k vs) : Item.WFList (toItems k vs) :=
+  (wfs_all (needList vs)).2.1 k vs (Nat.le_refl _) hc
+
+/-- the syntax tree of an output -/
+def fileItem (pv : Val) (blocks : List Val) : Item :=
+  .arr .imm [.tstr .imm cdnsText, toItem filePreamble pv, .arrI (toItems block blocks)]
+
+theorem fileBytes_eq (pv : Val) (blocks : List Val) : fileBytes pv blocks = (fileItem pv blocks).enc := by
+  simp only [fileBytes, fileItem, Item.enc, Item.encList, flatten_writeBytes, writeBytes, cdnsText, head, Width.ai, Width.nbytes, be,
+    indefHead, breakByte, mArr, mTstr, List.length_cons, List.length_nil]
+  simp
+
+/-- **File round trip.**  Whatever preamble and blocks (conforming to the schemas) an output holds,
+    the reader returns exactly them and consumes the whole file. -/
+theorem file_roundtrip (pv : Val) (blocks : List Val) (hp : Conforms filePreamble pv) (hb : ConformsList block blocks) :
+    ∃ fuel₀, ∀ fuel, fuel₀ ≤ fuel → (readFile fuel).run (fileBytes pv blocks) = .ok ((pv, .list blocks), []) := by
+  let bi : Item := .arrI (toItems block blocks)
+  have hbwf : bi.WF := wf_toItems block blocks hb
+  have hpwf : (toItem filePreamble pv).WF := (wfs_all (need pv)).1 filePreamble pv (Nat.le_refl _) hp
+  have hbd : denote (.arr block) bi = some (.list blocks) := by
+    show denote (.arr block) (.arrI (toItems block blocks)) = _
+    simp only [denote, denoteList_toItems block blocks hb, Option.map_some]
+  refine ⟨steps (toItem filePreamble pv) + cfuel (toItem filePreamble pv) + steps bi + cfuel bi + 1, fun fuel hf => ?_⟩
+  rw [fileBytes_eq]
+  unfold readFile
+  have h0 := C07.readArrayStart_accepts .imm [.tstr .imm cdnsText, toItem filePreamble pv, bi] (by simp [Width.fits, Width.bound]) []
+  rw [← List.append_nil (fileItem pv blocks).enc]
+  show (readArrayStart >>= _).run ((Item.arr .imm [.tstr .imm cdnsText, toItem filePreamble pv, bi]).enc ++ []) = _
+  rw [Prog.run_bind_ok _ _ _ _ _ h0]
+  simp only [List.length_cons, List.length_nil, Item.encList, List.append_nil]
+  have h3 : ¬ ((0 + 1 + 1 + 1 : Nat) ≠ 3 ∧ (!false) = true) := by decide
+  simp only [h3, if_false]
+  have h1 := C07.readTextstring_accepts .imm cdnsText (by decide) fuel ((toItem filePreamble pv).enc ++ bi.enc)
+  rw [Prog.run_bind_ok _ _ _ _ _ h1]
+  have hu : ¬ (upper cdnsText ≠ cdnsText) := by decide
+  simp only [hu, if_false]
+  have h2 := (rd_all fuel).1 filePreamble (toItem filePreamble pv) pv bi.enc hpwf (denote_toItem filePreamble pv hp) (by omega)
+  rw [Prog.run_bind_ok _ _ _ _ _ h2]
+  have h4 := (rd_all fuel).1 (.arr block) bi (.list blocks) [] hbwf hbd (by omega)
+  rw [List.append_nil] at h4
+  rw [Prog.run_bind_ok _ _ _ _ _ h4]
+  rfl
+
+/-- the domain of `file_roundtrip` is decidable: the `blk` driver evaluates `conformsB` on the values it reads from
+    every library-written output, so the theorem's hypotheses are checked on the real files -/
+theorem file_roundtrip_checked (pv : Val) (blocks : List Val)
+    (h : (conformsB filePreamble pv && conformsListB block blocks) = true) :
+    ∃ fuel₀, ∀ fuel, fuel₀ ≤ fuel → (readFile fuel).run (fileBytes pv blocks) = .ok ((pv, .list blocks), []) := by
+  simp only [Bool.and_eq_true] at h
+  exact file_roundtrip pv blocks (conforms_of_conformsB _ _ h.1) (conformsList_of_conformsListB _ _ h.2)
+
+/-! Non-vacuity: a preamble with one parameter set and a block with tables, a query/response with a
+    negative response delay and private members, an address-event count and a malformed message. -/
+def samplePreamble : Val := .record [(0, .num 1), (1, .num 0), (2, .num 1), (3, .list [.record [
+  (0, .record [(0, .num 1000000), (1, .num 10000), (2, .record [(0, .num 0x3ffff), (1, .num 0x1ffff), (2, .num 3), (3, .num 3)]),
+    (3, .list [.num 0, .num 5]), (4, .list [.num 1, .num 28, .num 65535])]),
+  (1, .record [(0, .num 5), (3, .bool true), (9, .str [104, 111, 115, 116])])]])]
+
+def sampleBlock : Val := .record [
+  (0, .record [(0, .list [.num 1700000000, .num 999999]), (1, .num 0)]),
+  (1, .record [(0, .num 4294967295)]),
+  (2, .record [(0, .list [.str [10, 0, 0, 1]]), (1, .list [.record [(0, .num 1), (1, .num 1)]]), (2, .list [.str [3, 119, 119, 119, 0]]),
+       (3, .list [.record [(1, .num 53), (10, .num 70000)]]), (4, .list [.list [.num 0]]), (5, .list [.record [(0, .num 0), (1, .num 0)]])]),
+  (3, .list [.record [(0, .num 18446744073709551615), (1, .num 0), (2, .num 65535), (4, .num 0), (6, .num (-9223372036854775808)),
+       (11, .record [(0, .num 0)]), (-1, .str [65, 83]), (-3, .num (-1))], .record []]),
+  (4, .list [.record [(0, .num 1), (2, .num 0), (4, .num 18446744073709551615)]]),
+  (5, .list [.record [(0, .num 5), (2, .num 53)]])]
+
+example : ∃ fuel₀, ∀ fuel, fuel₀ ≤ fuel →
+    (readFile fuel).run (fileBytes samplePreamble [sampleBlock, sampleBlock]) = .ok ((samplePreamble, .list [sampleBlock, sampleBlock]), []) :=
+  file_roundtrip_checked samplePreamble [sampleBlock, sampleBlock] (by rfl)
 
 end CdnsVerif.Props.C01
